@@ -304,7 +304,7 @@ func lexAgainstLexemes(src string, want []lexeme) string {
 	return ""
 }
 
-var soupPieces = []string{"a", "if", "12", "3.5", "1.", ".5", "+", "<-", "==", "(", "]", ",", ":", "\"s\"", "\"a\\\"b\"", "\"", "\\", " ", "\t", "\n", ";", "; c\n", "$", "A", "é", "\x00", "\xff", "_", "'", "@", "."}
+var soupPieces = []string{"a", "if", "12", "3.5", "1.", ".5", "+", "<-", "==", "(", "]", ",", ":", "\"s\"", "\"a\\\"b\"", "\"", "\\", " ", "\t", "\n", ";", "; c\n", "$", "A", "é", "\x00", "\xff", "_", "'", "@", ".", "\x7f", "\u0080", "\u0081", "\u00a0", "\u00aa", "\u0100", "\u2028", "\ufeff", "\ufffd", "\U00010000", "\U0010ffff", "\xc2", "\xed\xa0\x80", "\x80", "~", "&~", "=~", "~~"}
 
 func c14Prop(rec *ev.Recorder) func(t *rapid.T) {
 	return func(t *rapid.T) {
